@@ -20,7 +20,7 @@ fn build_shaped_t(n: usize, cap: usize, tab: [u8; 8], limit_slack: usize, nd: bo
     // Sizes are concrete here (distinct small values): reallocation does not
     // depend on them, and keeping them concrete keeps the shape of the
     // structure the only symbolic thing. The limit leaves `limit_slack` room.
-    let heaps: [usize; NMAX] = [5, 6, 7, 9];
+    let heaps: [usize; NMAX] = [5, 6, 7, 9, 11, 13, 17];
     let mut sz = [0usize; NMAX];
     let mut sum = 0usize;
     let mut i = 0;
@@ -87,11 +87,15 @@ pub fn h_capacity_t(n: usize, cap: usize, tab: [u8; 8], which: u8, nd: bool, tfi
             vcover!(c.capacity() == cap0, "reserve: capacity sufficed");
         }
         1 => {
+            // Either the request fits the table model (<= 7 entries) or it is so large that
+            // the real hashbrown refuses it as well (the native replay must see the same outcome).
+            sym::assume(arg <= 7 - len || arg >= (1usize << 60));
             let fail: bool = sym::any();
             if fail {
                 tm::fail_next_alloc();
             }
             let r = c.try_reserve(arg);
+            tm::clear_fail();
             match &r {
                 Ok(()) => {
                     vassert!([C13], len.checked_add(arg).map_or(false, |need| c.capacity() >= need), "try_reserve returned Ok but capacity is below len + additional (or the sum overflows)");
@@ -110,6 +114,8 @@ pub fn h_capacity_t(n: usize, cap: usize, tab: [u8; 8], which: u8, nd: bool, tfi
             vcover!(matches!(r, Err(hashbrown::TryReserveError::CapacityOverflow)), "try_reserve: capacity overflow");
         }
         2 => {
+            // requests beyond the table model (> 7) are outside the bound
+            sym::assume(arg <= 7);
             c.shrink_to(arg);
             let floor = if len > arg { len } else { arg };
             vassert!([C13], c.capacity() <= cap0, "shrink_to raised the capacity");
@@ -278,7 +284,58 @@ pub fn h_grow_insert_t(n: usize, cap: usize, tab: [u8; 8], nd: bool, tfix: i8) {
     use_after(&mut c, n + 1);
     drop(c);
     check_drops(n, &[NEW_VID, NEW_KID]);
+    #[cfg(not(kani))]
+    churn_witness();
     vend!();
+}
+
+/// Native only (replay): the churn bound at a scale where the real hashbrown
+/// produces tombstones - a sliding window of 20 consecutive keys under an
+/// identity hasher, explicit removals and eviction-driven churn; capacity must
+/// stay below max(4 * peak len, 16).
+#[cfg(not(kani))]
+fn churn_witness() {
+    #[derive(Clone, Default)]
+    struct IdBuild;
+    #[derive(Default)]
+    struct IdHasher(u64);
+    impl Hasher for IdHasher {
+        fn finish(&self) -> u64 {
+            self.0
+        }
+        fn write(&mut self, b: &[u8]) {
+            for (i, x) in b.iter().enumerate().take(8) {
+                self.0 |= (*x as u64) << (8 * i);
+            }
+        }
+        fn write_u64(&mut self, v: u64) {
+            self.0 = v;
+        }
+    }
+    impl BuildHasher for IdBuild {
+        type Hasher = IdHasher;
+        fn build_hasher(&self) -> IdHasher {
+            IdHasher(0)
+        }
+    }
+    let mut c: LruCache<u64, u64, IdBuild> = LruCache::with_hasher(usize::MAX, IdBuild);
+    let mut peak = 0usize;
+    let mut i = 0u64;
+    while i < 4000 {
+        c.insert(i, i).unwrap();
+        if i >= 20 {
+            c.remove(&(i - 20));
+        }
+        if c.len() > peak {
+            peak = c.len();
+        }
+        let bound = if 4 * peak > 16 { 4 * peak } else { 16 };
+        if c.capacity() >= bound {
+            eprintln!("witness: churn step {}, len {}, peak {}, capacity {}", i, c.len(), peak, c.capacity());
+        }
+        vassert!([C13], c.capacity() < bound, "automatic growth took the capacity to max(4 x peak len, 16) or beyond under churn at constant length");
+        i += 1;
+    }
 }
 
 /// hashbrown's rounding of a requested capacity to the capacity of the table allocated.
@@ -321,7 +378,11 @@ pub fn h_with_capacity(n: usize, tab: [u8; 8], nd: bool) {
 /// op: operation applied afterwards to `side` (0 = clone, 1 = source):
 /// 0 none, 1 insert new key, 2 remove key, 3 get key, 4 set_max_size, 5 clear, 6 mutate, 7 drop it
 pub fn h_clone(n: usize, cap: usize, tab: [u8; 8], op: u8, side: u8, nd: bool) {
-    let (c, st, exp) = build_shaped(n, cap, tab, ES0 + (1 << 20), nd);
+    h_clone_s(n, cap, tab, op, side, nd, ES0 + (1 << 20), -1)
+}
+/// `slack`: free bytes under the limit (0 = the cache is exactly full).
+pub fn h_clone_s(n: usize, cap: usize, tab: [u8; 8], op: u8, side: u8, nd: bool, slack: usize, tfix: i8) {
+    let (c, st, exp) = build_shaped_t(n, cap, tab, slack, nd, tfix);
     let f0 = fp(&c, n + 1);
     let d = c.clone();
     let hashes = unsafe { HASHES };
@@ -444,6 +505,7 @@ harnesses! {
     shrink_to_n2_c7_sym [5] => h_capacity(2, 7, tab_of(6), 2, false); //@ t=C13 to=1200
     shrink_to_n3_c7 [6] => h_capacity(3, 7, tab_of(6), 2, false); //@ t=C13,C07 to=1200
     shrink_to_fit_n2_c7 [5] => h_capacity(2, 7, tab_of(6), 3, false); //@ q=C13,C07,C20 t=C04,C05,C06 to=1200
+    shrink_to_n1_c3_t0 [4] => h_capacity_t(1, 3, tab_of(6), 2, false, 0); //@ q=C13 t=C07 to=900
     shrink_to_fit_n0_c3 [4] => h_capacity(0, 3, tab_of(6), 3, false); //@ q=C13 t=C07 to=600
     shrink_to_fit_tomb_n2_c3 [5] => h_shrink_tomb(2, 3, tab_of(6), true); //@ q=C13 to=900
     shrink_to_tomb_n3_c7 [6] => h_shrink_tomb(3, 7, tab_of(6), false); //@ t=C13 to=1800
@@ -465,5 +527,8 @@ harnesses! {
     clone_n2_clear_clone [5] => h_clone(2, 3, tab_of(6), 5, 0, false); //@ t=C14,C06 to=1200
     clone_n2_mutate_clone [5] => h_clone(2, 3, tab_of(6), 6, 0, false); //@ t=C14 to=1200
     clone_n3_c3_nd [6] => h_clone(3, 3, tab_of(6), 0, 0, true); //@ t=C14 to=2400
+    clone_n3_c3_exactly_full [6] => h_clone_s(3, 3, tab_of(6), 0, 0, false, 0, -1); //@ q=C14,C19,C01 to=900
+    clone_n2_c7_spare [5] => h_clone_s(2, 7, tab_of(6), 0, 0, false, 64, 0); //@ q=C14,C13 to=900
+    clone_n7_c7_t3 [10] => h_clone_s(7, 7, tab_of(6), 0, 0, false, 64, 3); //@ q=C20 t=C14,C19 to=1500
     clone_n0 [4] => h_clone(0, 0, tab_of(6), 1, 0, false); //@ q=C14 to=600
 }
